@@ -254,6 +254,17 @@ theorem block_sin_cos (n p q : ℕ) (hp : 0 < p) (hq : 0 < q) (hpq : p + q < n) 
   rw [Finset.mul_sum]
   exact sum_congr rfl (fun c _ => by ring)
 
+/-- constant/anything block: `Σ_b Σ_b' 1 · w(b-b') · A(b') = (Σ_c w(c)) · Σ_b' A(b')` (every column of a circulant matrix has
+the same sum) -/
+theorem block_one (n : ℕ) (hn : 0 < n) {w : ℕ → ℝ} (hw : ∀ m, w (m + n) = w m) (A : ℕ → ℝ) :
+    ∑ b ∈ range n, ∑ b' ∈ range n, w (b + n - b') * A b' = (∑ c ∈ range n, w c) * ∑ b' ∈ range n, A b' := by
+  rw [sum_comm, Finset.mul_sum]
+  apply sum_congr rfl; intro b' hb'
+  rw [← Finset.sum_mul]
+  have := circulant_sum hn (u := fun _ => 1) (fun _ => rfl) hw b' (mem_range.1 hb')
+  simp only [one_mul] at this
+  rw [this]
+
 /-- an even sequence on the grid has no sine component -/
 theorem sum_even_sin (n p : ℕ) (hn : 0 < n) {w : ℕ → ℝ} (hev : ∀ c, c ≤ n → w (n - c) = w c) :
     ∑ c ∈ range n, w c * Real.sin ((p:ℝ) * ang n c) = 0 := by
